@@ -192,6 +192,46 @@ func GenMsg(r *sim.Rand, token string, o ShapeOpts) MsgSpec {
 	return m
 }
 
+// Swarm varies the client options that a property does not care about, so that correctness never
+// silently depends on one configuration: debug logging (exercises the logging paths of every
+// command), WithoutNoop, DSN options (only sent if the server offers DSN), a custom HELO name.
+func Swarm(r *sim.Rand, c *ClientCfg, serverCaps *[]string) {
+	if r.Chance(1, 4) {
+		c.Debug = true
+	}
+	if r.Chance(1, 5) {
+		c.NoNoop = true
+	}
+	if r.Chance(1, 4) {
+		c.DSN = true
+		if r.Chance(1, 2) {
+			c.DSNRet = Pick2(r, "FULL", "HDRS")
+		}
+		if serverCaps != nil && r.Chance(2, 3) {
+			has := false
+			for _, x := range *serverCaps {
+				if x == "DSN" {
+					has = true
+				}
+			}
+			if !has {
+				*serverCaps = append(*serverCaps, "DSN")
+			}
+		}
+	}
+	if r.Chance(1, 5) {
+		c.HELO = Pick2(r, "client.sim.example", "[192.0.2.7]")
+	}
+}
+
+// Pick2 picks one of two strings.
+func Pick2(r *sim.Rand, a, b string) string {
+	if r.Chance(1, 2) {
+		return a
+	}
+	return b
+}
+
 // producersOf lists (kind, index) of all producer-backed contents in spec order (parts, embeds,
 // attachments), matching Built.Producers.
 func (s MsgSpec) producerCount() int { return len(s.Parts) + len(s.Embeds) + len(s.Attach) }
